@@ -505,6 +505,19 @@ structure LogRec where
 def failLog (env : Env) (cfg : Cfg) (acceptsAnswer : Bytes) (call : Call) : LogRec :=
   { error := msgOf env.stText call.err, status := (format env (selectFormatter cfg acceptsAnswer) call.err).status }
 
+/-- the marker the harness uses for the `"failed to write JSON response"` record (no error text of ours, status 0) -/
+def encodeFailureRec : LogRec := { error := "failed to write JSON response".toList, status := 0 }
+
+/-- every record `fail` logs, in order: the `"handler error"` record, then — when the first body does not encode —
+    the `"failed to write JSON response"` record (the fallback body always encodes for the three formatters) -/
+def failLogs (env : Env) (cfg : Cfg) (acceptsAnswer : Bytes) (w : Wire) (call : Call) : List LogRec :=
+  failLog env cfg acceptsAnswer call :: (if bodyEncodes call.err then [] else [encodeFailureRec]) ++
+  -- net/http (parameter): over a real connection `Write` reports `ErrBodyNotAllowed` after a 101, 204 or 304
+  -- header, which `fail` logs under the same message (K06c)
+  (if w == .server && ((failResp env (selectFormatter cfg acceptsAnswer) call.err).status == 101 ||
+        (failResp env (selectFormatter cfg acceptsAnswer) call.err).status == 204 ||
+        (failResp env (selectFormatter cfg acceptsAnswer) call.err).status == 304) then [encodeFailureRec] else [])
+
 /-- `Context.fail` at position `pos` of the handler chain: Abort, select, format, encode (with the
     fallback), set the Content-Type, write status and body once. After the K06 repair the body is
     written with the formatter's media type. -/
